@@ -257,6 +257,20 @@ class Check:
 
     # ----- Coq evaluation of model/spec on cases ---------------------------------------------------
     def coq_eval(self, preamble, terms, chunk=300, timeout=900, scope='Z_scope'):
+        """see _coq_eval_once; when a shard fails because compiled libraries changed under it (somebody else's
+        build running concurrently), wait for the build lock and evaluate once more"""
+        r = self._coq_eval_once(preamble, terms, chunk, timeout, scope)
+        if any(x is None for x in r) and any(o['name'] == 'coq-eval' and not o['ok'] and
+                                             any(k in o['detail'] for k in ('inconsistent assumptions', 'premature end', 'bad version', 'Cannot find a physical path',
+                                                                            'not a valid', 'Compiled library'))
+                                             for o in self.obligations):
+            self.obligations = [o for o in self.obligations if o['name'] != 'coq-eval']
+            with BuildLock():
+                sh(['make', '-j%d' % NPROC] + self.model_targets, cwd=COQ, timeout=1500)
+            r = self._coq_eval_once(preamble, terms, chunk, timeout, scope)
+        return r
+
+    def _coq_eval_once(self, preamble, terms, chunk=300, timeout=900, scope='Z_scope'):
         """terms: Coq terms of type `list Z`; returns a list of python int lists (None when the
         shard failed).  One coqc per shard, shards in parallel."""
         if not terms:
